@@ -291,6 +291,19 @@ def corpus():
                             ({"y": "y", "v": "x", "z": "y_x", "u": "y_x_"}, []), ({"x": "x", "u": "x_", "z": "x__"}, [("M0", "sig", "t1", "bp_x")]),
                             ({}, [("M0", "sig", "t1", "bp_x")]), ({}, [("M0", "inst", "i3", "bp_y_v")])):
         out.append((base, script, members))
+    # the implicit *bundle* behind a reference to (or a no-connect on) a bundle-valued port: it lives until the bundles are flattened,
+    # and until then holds a name (`i1_bp`, the no-connect's name) which a designer's signal / instance / array may have
+    base = top([sg("a"), sg("b")],
+               [{"n": "i1", "of": {"k": "module", "name": "M0"}, "conns": []},
+                {"n": "i2", "of": {"k": "module", "name": "M0"}, "conns": [["bp", {"k": "pref", "inst": "i1", "port": "bp"}]]},
+                {"n": "i3", "of": {"k": "module", "name": "M0"}, "conns": [["bp", {"k": "noconn", "name": "ncb"}]]},
+                {"n": "i6", "of": {"k": "module", "name": "M0"}, "conns": [["bp", {"k": "noconn"}]]},
+                {"n": "i4", "of": R, "conns": [["p", S("a")], ["n", S("b")]]},
+                {"n": "i5", "of": R, "conns": [["p", S("a")], ["n", S("b")]], "array": 2}],
+               bdefs=[B], mods=[child])
+    for script in ([("inst", "i4", "i1_bp")], [("inst", "i5", "i1_bp")], [("sig", "b", "i1_bp")], [("inst", "i4", "ncb")], [("inst", "i5", "ncb")], [("sig", "b", "ncb")],
+                   [("inst", "i4", "i6_bp")], [("sig", "a", "i6_bp")], [("inst", "i4", "i1_bp"), ("inst", "i5", "i1_bp_")], [("sig", "a", "i1_bp_x")], [("inst", "i4", "ncb_x")]):
+        out.append((base, script, {}))
     # instance bundles: designer instance on a member's name; two members; two instance bundles
     IB = {"name": "IB0", "ib": True, "tree": {"sigs": [leaf("x", 1), leaf("u", 1)], "subs": []}}
     IC = {"name": "IB1", "ib": True, "tree": {"sigs": [leaf("z", 1)], "subs": []}}
